@@ -18,7 +18,7 @@ fn is_delete(o: &Op) -> bool {
 // ---------------------------------------------------------------------------------------------
 pub fn check_c05(tier: Tier) -> i32 {
     let mut run = Run::new("C05", tier, "model_checking");
-    let depth = tier.pick(2, 3);
+    let depth = tier.pick(3, 4);
     run.rule = format!(
         "every state of the C06/C07/C08 history spaces (all histories of length <= {} over the function, global and memory alphabets on their base modules) is encoded three times in a row without edits; bytes1 = bytes2 = bytes3 and no later encoding may panic. (Instrumentation plans of C15-C21 are covered by the plan explorer's own re-encode clause, reported under C05 by `lowering`.) Non-trivial class = distinct operation multiset.",
         depth
@@ -31,7 +31,7 @@ pub fn check_c05(tier: Tier) -> i32 {
     let gb = global_bases();
     let mb = mem_bases();
     for (bases, alpha) in [(&fb, &fa as &(dyn Fn(&Model) -> Vec<Op> + Sync)), (&gb, &ga), (&mb, &ma)] {
-        let s = Search { bases, depth, cfg: CFG3, enabled: alpha, judge: &judge, relevant: &|_| true, max_states: tier.pick(400_000, 4_000_000) };
+        let s = Search { bases, depth, cfg: CFG3, enabled: alpha, judge: &judge, relevant: &|_| true, max_states: tier.pick(1_000_000, 30_000_000) };
         run_search(&mut run, &s);
     }
     run.extra.insert("depth_completed".into(), json!(depth));
@@ -45,7 +45,7 @@ pub fn check_c05(tier: Tier) -> i32 {
 // ---------------------------------------------------------------------------------------------
 pub fn check_c09(tier: Tier) -> i32 {
     let mut run = Run::new("C09", tier, "model_checking");
-    let depth = tier.pick(2, 3);
+    let depth = tier.pick(3, 4);
     run.rule = format!(
         "the C06/C07/C08 history spaces (length <= {}) restricted to histories containing >= 1 deletion (function, global, memory - local or imported - and export), including deletions of entities that are still referenced. No dangling reference: exactly the deleted entities are absent from the encoded module and every other entity is present (token multisets per index space). Dangling reference: encoding must fail loudly (panic); an output in which the dangling site designates any entity is the violation; a site that is dropped (start section) is accepted. Non-trivial class = distinct operation multiset.",
         depth
@@ -59,7 +59,7 @@ pub fn check_c09(tier: Tier) -> i32 {
     let gb = global_bases();
     let mb = mem_bases();
     for (bases, alpha) in [(&fb, &fa as &(dyn Fn(&Model) -> Vec<Op> + Sync)), (&gb, &ga), (&mb, &ma)] {
-        let s = Search { bases, depth, cfg: CFG1, enabled: alpha, judge: &judge, relevant: &relevant, max_states: tier.pick(400_000, 4_000_000) };
+        let s = Search { bases, depth, cfg: CFG1, enabled: alpha, judge: &judge, relevant: &relevant, max_states: tier.pick(1_000_000, 30_000_000) };
         run_search(&mut run, &s);
     }
     run.extra.insert("depth_completed".into(), json!(depth));
@@ -111,15 +111,21 @@ pub fn c10_bases() -> Vec<Base> {
 pub fn c10_alphabet() -> impl Fn(&Model) -> Vec<Op> + Sync {
     |m: &Model| {
         let mut ops = vec![];
-        for f in m.funcs.iter().filter(|f| f.live && f.import.is_some() && f.import.as_ref().map(|(mo, _)| mo == "env").unwrap_or(false)) {
+        // every live function import can be replaced: the parsed ones, added ones, and imports that a
+        // local function was converted to
+        for f in m.funcs.iter().filter(|f| f.live && f.import.is_some()) {
             ops.push(Op::ImportToLocal(f.handle));
         }
         // at most one other edit per history (kept small: the property is about the replacement)
-        let others = m.funcs.iter().filter(|f| f.live && f.import.as_ref().map(|(mo, _)| mo == "added").unwrap_or(false)).count()
-            + m.funcs.iter().filter(|f| f.live && f.import.is_none() && f.marker.map(|k| k >= 2).unwrap_or(false) && f.sites.is_empty() && !f.name_any).count();
+        let others = m.funcs.iter().filter(|f| f.import.as_ref().map(|(mo, _)| mo == "added" || mo == "conv").unwrap_or(false)).count()
+            + m.funcs.iter().filter(|f| f.import.is_none() && f.marker.map(|k| k >= 2).unwrap_or(false) && f.sites.is_empty() && !f.name_any).count()
+            + m.funcs.iter().filter(|f| !f.live).count();
         if others == 0 {
             ops.push(Op::AddImportFunc);
             ops.push(Op::AddLocalFunc { calls: None });
+            for f in m.funcs.iter().filter(|f| f.live && f.import.is_none() && !f.name_any) {
+                ops.push(Op::LocalToImport(f.handle));
+            }
         }
         ops
     }
@@ -130,7 +136,7 @@ pub fn check_c10(tier: Tier) -> i32 {
     let depth = tier.pick(3, 4);
     let bases = c10_bases();
     run.rule = format!(
-        "16 base modules = every placement of non-function imports (global, memory, table, tag) in the 4 gaps around 3 function imports, each import referenced from calls, exports, an element segment and start; all histories of length <= {} over: replace function import i (obtained the documented way, imports.find(module,name), then FunctionBuilder::replace_import_in_module) for every i, in every order and subset, interleaved with <= 1 other edit (add import / add local function). Oracle: the import is gone, every former site of it designates the function carrying the new body's marker, all other entities and sites are unchanged, the output validates.",
+        "16 base modules = every placement of non-function imports (global, memory, table, tag) in the 4 gaps around 3 function imports, each import referenced from calls, exports, an element segment and start; all histories of length <= {} over: replace function import i (obtained the documented way, imports.find(module,name), then FunctionBuilder::replace_import_in_module) for every i, in every order and subset, interleaved with <= 1 other edit (add import / add local function / convert a local function to an import - added and converted imports are replaced too). Oracle: the import is gone, every former site of it designates the function carrying the new body's marker, all other entities and sites are unchanged, the output validates.",
         depth
     );
     let judge = |c: &Clause, _h: &[Op]| matches!(c.kind, ClauseKind::Func | ClauseKind::Generic | ClauseKind::DupId);
@@ -154,6 +160,14 @@ pub fn c11_alphabet() -> impl Fn(&Model) -> Vec<Op> + Sync {
         if m.funcs.iter().filter(|f| f.live && f.import.as_ref().map(|(mo, _)| mo == "added").unwrap_or(false)).count() < 2 {
             ops.push(Op::AddImportFunc);
         }
+        // at most one deletion of a function nothing refers to (it shifts the import block)
+        if m.funcs.iter().all(|f| f.live) {
+            for f in m.funcs.iter().filter(|f| f.live) {
+                if !m.referenced(crate::view::Kind::Func, f.handle) {
+                    ops.push(Op::DeleteFunc(f.handle));
+                }
+            }
+        }
         ops
     }
 }
@@ -163,7 +177,7 @@ pub fn check_c11(tier: Tier) -> i32 {
     let depth = tier.pick(3, 5);
     let bases: Vec<Base> = fn_bases().into_iter().filter(|b| b.name != "fn-empty" && b.name != "fn-imports-only").collect();
     run.rule = format!(
-        "all histories of length <= {} over: convert local function h to an import (module \"conv\", fresh name, its own type) for every live local function, in every order and subset, interleaved with <= 2 import additions, on {} base modules (every reference-site kind). Oracle: the converted body's marker is gone from the code section, an import (conv, name) exists, every former site of the function designates that import, all other functions keep their identity, the output validates.",
+        "all histories of length <= {} over: convert local function h to an import (module \"conv\", fresh name, its own type) for every live local function, in every order and subset, interleaved with <= 2 import additions and <= 1 deletion of an unreferenced function, on {} base modules (every reference-site kind). Oracle: the converted body's marker is gone from the code section, an import (conv, name) exists, every former site of the function designates that import, all other functions keep their identity, the output validates.",
         depth,
         bases.len()
     );
